@@ -1,15 +1,16 @@
 """Synthetic corpus members generated from their id (no file).
 
-`deepMMM` — a contract whose single execution path is long while its graph is small: eight nested
-subroutines, each calling the next one twice (path length doubles per level), called from main
-code after a chain of MMM conditional blocks.  The detectors' path search recurses once per block
-of the path, so for some MMM the contract needs just more stack than the interpreter's recursion
-limit allows.  The reference phase calibrates MMM per run (smallest value whose path search raises
-RecursionError in a pristine interpreter); `deep<M+5>` and `deep<M-6>` then sit a few frames on
-either side of the limit and tell whether an earlier operation left the limit changed — at the cost
-of analysing a hundred blocks, not a thousand."""
+`deep<D>` — a contract whose single execution path has about D blocks while its graph has about
+fifty: nine nested subroutines, each calling the next one twice (the path through level i is
+3 + 2 x the path through level i+1), called from main code as the greedy decomposition of D into
+those path lengths, the remainder made up by a chain of conditional blocks.  The detectors' path
+search recurses once per block of the path, so for some D the contract needs just more stack than
+the interpreter's recursion limit allows.  The reference phase calibrates D per run (smallest value
+whose path search raises RecursionError in a pristine interpreter); `deep<D+5>` and `deep<D-6>`
+then sit a few frames on either side of the limit and tell whether an earlier operation left the
+limit changed — at the cost of analysing fifty blocks, not a thousand."""
 
-from typing import Optional
+from typing import List, Optional
 
 LEVELS = 9
 
@@ -18,14 +19,30 @@ def is_synthetic(cid: str) -> bool:
     return cid.startswith("deep") and cid[4:].isdigit()
 
 
+def _level_paths() -> List[int]:
+    length = [0] * LEVELS
+    length[LEVELS - 1] = 1
+    for i in range(LEVELS - 2, -1, -1):
+        length[i] = 3 + 2 * length[i + 1]
+    return length
+
+
 def source(cid: str) -> Optional[str]:
     if not is_synthetic(cid):
         return None
-    m = int(cid[4:])
+    rest = int(cid[4:])
+    length = _level_paths()
+    calls: List[int] = []
+    for i in range(1, LEVELS - 2):  # 509, 253, ... 13 blocks (+1 for the calling block)
+        while rest >= length[i] + 1:
+            calls.append(i)
+            rest -= length[i] + 1
     lines = ["#pragma version 6", "txn RekeyTo", "global ZeroAddress", "==", "assert"]
-    for i in range(m):
+    for i in range(rest):
         lines += ["int 1", "bnz t%d" % i, "err", "t%d:" % i]
-    lines += ["callsub s1", "callsub s2", "callsub s3", "callsub s5", "callsub s5", "int 1", "return"]
+    for i in calls:
+        lines.append("callsub s%d" % i)
+    lines += ["int 1", "return"]
     for i in range(LEVELS - 1):
         lines += ["s%d:" % i, "callsub s%d" % (i + 1), "callsub s%d" % (i + 1), "retsub"]
     lines += ["s%d:" % (LEVELS - 1), "int 1", "pop", "retsub"]
